@@ -1892,3 +1892,36 @@ Proof.
   intros H. cbn [step]. unfold make_verified. destruct (verify_name raw) as [[]|e] eqn:E; [|reflexivity].
   apply verify_name_ok_iff in E. contradiction.
 Qed.
+
+(* Session::use_keyspace returns Ok only if every node (and, inside a node, every connection)
+   answered Ok or with a broken-connection error - the two pool answers C20_after_success covers *)
+Lemma aggregate_ok_each l :
+  use_keyspace_result l = AOk -> forall x, In x l -> x = COk \/ exists t, x = CBroken t.
+Proof.
+  intros H x Hx. apply use_keyspace_result_ok in H. destruct H as [_ H].
+  rewrite forallb_forall in H. specialize (H x Hx). destruct x as [|t|t]; [left; reflexivity|right; exists t; reflexivity|discriminate].
+Qed.
+
+(* the pool's answer is an error other than "broken connection" exactly when some covered
+   connection reported such an error *)
+Lemma answer_of_err r :
+  answer_of r = PAErr <-> exists c, In c (cov r) /\ is_err (outcome (stat r c)) = true.
+Proof.
+  unfold answer_of. destruct (cov r) as [|c0 l] eqn:E.
+  - split; [discriminate|]. intros [c [[] _]].
+  - rewrite <- E.
+    destruct (use_keyspace_result (map (fun c => outcome (stat r c)) (cov r))) eqn:U.
+    + split; [discriminate|]. intros [c [Hc He]]. apply use_keyspace_result_ok in U. destruct U as [_ U].
+      rewrite forallb_forall in U. specialize (U (outcome (stat r c))).
+      rewrite He in U. cbn in U. assert (false = true); [|discriminate]. apply U.
+      apply in_map_iff. exists c. split; [reflexivity|exact Hc].
+    + split; [discriminate|]. intros [c [Hc He]].
+      assert (Hn : forall t, use_keyspace_result (map (fun c => outcome (stat r c)) (cov r)) <> AErr t) by (intros t; rewrite U; discriminate).
+      apply use_keyspace_result_noerr in Hn. rewrite forallb_forall in Hn. specialize (Hn (outcome (stat r c))).
+      rewrite He in Hn. cbn in Hn. assert (false = true); [|discriminate]. apply Hn.
+      apply in_map_iff. exists c. split; [reflexivity|exact Hc].
+    + split; [intros _|reflexivity]. apply use_keyspace_result_err in U. destruct U as [l1 [l2 [Hl _]]].
+      assert (Hin : In (CErr tag) (map (fun c => outcome (stat r c)) (cov r))) by (rewrite Hl; apply in_app_iff; right; left; reflexivity).
+      apply in_map_iff in Hin. destruct Hin as [c [Hc Hin]]. exists c. split; [exact Hin|]. rewrite Hc. reflexivity.
+    + apply use_keyspace_result_panic in U. rewrite E in U. discriminate.
+Qed.
